@@ -1,20 +1,44 @@
 (* PropsC16.v — C16: a per-field merge policy applies to exactly the named subtree.
    Statements only; proofs are in ProofsPolicy.v.
 
-   PARTIAL: proved for all trees is that wherever no field-policy tree is in force the merge
-   IS the global-policy merge (which C01 ties to the plain-tree specification); which options
-   are in force at and below a named field is shown on instances evaluated by the model
-   (the named policy at the field, nothing of the tree below it, the tree dropped at every
-   other name - hence, by the theorem, the global policy there), not yet for all field paths,
-   indices and wildcards.  The correspondence run compares merge_full with the implementation
-   on random trees, paths and policy combinations, and checks the property itself against the
-   plain-tree specification spec_merge_at.  F31 is the known deviation at list levels. *)
+   PARTIAL.  Proved for ALL trees, both global and named policies, and every policy on ONE
+   top-level name (any name that is not index-like, a wildcard or empty): the options in force
+   at the named field are the named policy, and everything at and below it is merged exactly
+   as if the named policy were the global one; at every other named field the global policy
+   stays in force and the rest of the merge is the global-policy merge (which C01 proves equal
+   to the plain-tree specification); wherever no field tree is in force the merge is the
+   global-policy merge.  NOT proved: dotted field paths of depth > 1, indices and wildcards in
+   the path, several policies at once; those are decided by the correspondence run (merge_full
+   against the implementation on random trees, paths and policy combinations) and by the
+   evaluation of the plain-tree specification spec_merge_at per case.  F31 is the known
+   deviation at list levels. *)
 From Ucfg Require Import Base ParseInt Consts Field Tree PathOps Merge ProofsPolicy.
 
 Theorem c16_no_tree_is_global_policy_partial : forall v o old,
   m_ft o = None -> merge_full o old v = merge_plain o old v.
 Proof. exact merge_full_no_tree. Qed.
 Print Assumptions c16_no_tree_is_global_policy_partial.
+
+(* a policy on one top-level name, for all trees and all values *)
+Theorem c16_single_name_policy_partial : forall h name h', name_ok name -> (h' < 256)%N ->
+  (forall old v, o' <- field_opts_override {| m_h := h; m_ft := Some (policy_tree name h') |} name (-1) ;;
+                 merge_full o' old v
+                 = merge_plain (plain_opts h') old v) /\
+  (forall k old v, name_ok k -> k <> name ->
+                   o' <- field_opts_override {| m_h := h; m_ft := Some (policy_tree name h') |} k (-1) ;;
+                   merge_full o' old v
+                   = merge_plain {| m_h := h; m_ft := None |} old v).
+Proof. exact single_name_policy. Qed.
+Print Assumptions c16_single_name_policy_partial.
+
+Theorem c16_named_policy_is_global_below_partial : forall h' v old,
+  merge_full {| m_h := h'; m_ft := Some (policy_leaf h') |} old v = merge_plain (plain_opts h') old v.
+Proof. exact named_policy_is_global_below. Qed.
+Print Assumptions c16_named_policy_is_global_below_partial.
+
+Theorem c16_name_hypothesis_examples : name_ok "paths" /\ name_ok "a-b_c" /\ ~ name_ok "3" /\ ~ name_ok "*".
+Proof. exact name_ok_examples. Qed.
+Print Assumptions c16_name_hypothesis_examples.
 
 Theorem c16_named_field_instances_partial :
   field_opts_override {| m_h := hDefault; m_ft := Some (policy_tree "paths" hAppend) |} "paths" (-1)
